@@ -183,7 +183,8 @@ class Engine:
         # longer occurs in the code under that name (e.g. a renamed local): the contract is out of date - undecided, not violated
         hits = self.__dict__.get("_ext_hits", {})
         for key_, summ_ in self.c.externals.items():
-            if summ_.get("record_as") and not summ_.get("optional") and not hits.get(key_) and not self._occurs_in_source(key_):
+            if summ_.get("record_as") and not summ_.get("optional") and not hits.get(key_) and self._rooted_at_local(key_) \
+                    and not self._occurs_in_source(key_):
                 raise StaleContract(f"{self.c.key}: the contract counts calls of {key_!r}, which the code never makes under that name")
         # vacuity: at least one normal or exceptional exit must be reachable
         return self.vcs
@@ -3125,10 +3126,12 @@ class Engine:
                 for g, inc in summ.get("ghost_on_raise", {}).items():
                     self.st.ghost[g] = self.st.ghost.get(g, z3.IntVal(0)) + inc
                 self._ext_havoc(summ, args)
+                self._ext_snapshot(summ)
                 raise PyRaise(excs[w - 1])
         for g, inc in summ.get("ghost", {}).items():
             self.st.ghost[g] = self.st.ghost.get(g, z3.IntVal(0)) + inc
         self._ext_havoc(summ, args)
+        self._ext_snapshot(summ)
         if summ.get("native_call") is not None and all(a_.k == "py" for a_ in args) and not kwvals:
             # pure constructor over live constants only: run it
             res = self.pyval(summ["native_call"](*[a_.t for a_ in args]))
@@ -3149,6 +3152,39 @@ class Engine:
             for p in ([post] if isinstance(post, str) else post):
                 self.assume(self.clause_bool(p, self.st, self.st, env))
         return res
+
+    def _rooted_at_local(self, key: str) -> bool:
+        """is the external named through something a harmless edit may rename - a local variable or a parameter (other than
+        self / cls) of the verified function as the contract knew it? Keys rooted at self, a module, a class or a built-in are not:
+        when such a call disappears the obligations are left to fail."""
+        k = key
+        for pre in ("sub:", "with:", "attr:", "call:"):
+            if k.startswith(pre):
+                k = k[len(pre):]
+        m_ = re.match(r"[A-Za-z_][A-Za-z_0-9]*", k)
+        if not m_ or k.startswith("*."):
+            return False
+        root = m_.group(0)
+        if root in ("self", "cls"):
+            return False
+        # the contract's own view of the function's locals: parameters it declares and names its clauses / loop specs mention
+        c = self.c
+        declared = set(c.params) | set(c.param_names)
+        text = " ".join(list(c.ensures) + list(c.requires) + [str(v_) for v_ in c.loops.values()] + [str(k_) for k_ in c.loops])
+        fn_locals = set()
+        node = getattr(self.x, "node", None)
+        if node is not None:
+            for n_ in ast.walk(node):
+                if isinstance(n_, ast.Name) and isinstance(n_.ctx, ast.Store):
+                    fn_locals.add(n_.id)
+                elif isinstance(n_, ast.arg) and n_.arg not in ("self", "cls"):
+                    fn_locals.add(n_.arg)
+        import builtins as _b
+        if hasattr(_b, root):
+            return False
+        if root in fn_locals:
+            return False          # still a local of the code: the call itself is gone, not renamed
+        return root in declared or bool(re.search(r"\b" + re.escape(root) + r"\b", text)) or root.islower()
 
     def _occurs_in_source(self, key: str) -> bool:
         """does the verified function (or a helper inlined into it) contain a call / lookup written as this external key?"""
@@ -3177,6 +3213,13 @@ class Engine:
                     if key.startswith("call:"):
                         return True
         return False
+
+    def _ext_snapshot(self, summ):
+        """snapshot: ghost names bound to the value of an expression right after the external's effects (also when it raises)"""
+        for k_, expr_ in summ.get("snapshot", {}).items():
+            for p_ in ([summ["post"]] if isinstance(summ.get("post"), str) else summ.get("post", [])):
+                pass
+            self.st.env[k_] = self.clause_val(expr_, self.st, self.st, {})
 
     def _hit_external(self, summ):
         hits = self.__dict__.setdefault("_ext_hits", {})
